@@ -83,8 +83,10 @@ def showFAns (w : Nat) : OAns → String
 def bit (s : String) : Bool := s == "1"
 def showBit (b : Bool) : String := if b then "1" else "0"
 
+/-- fragments are comma separated; an odd-length token starting with `c` is a `write_char` call -/
 def parseFrags (s : String) : Option (List (List Nat)) :=
-  if s == "." then some [] else (s.splitOn ",").mapM unhex
+  if s == "." then some []
+  else (s.splitOn ",").mapM fun f => if f.length % 2 == 1 && f.startsWith "c" then unhex (f.drop 1).toString else unhex f
 
 def showComplaints (cs : Complaints) : String :=
   if cs.isEmpty then "OK" else "VIOL " ++ ";".intercalate (cs.map fun (p, w) => s!"{p}:{w.replace " " "_"}")
@@ -162,7 +164,8 @@ def answerLine (line : String) : String :=
   let verdict := match judge req ans with
     | some cs => showComplaints cs
     | none => "BAD"
-  let (m, mv) := match Decstr.Model.answer req with
+  let io : Decstr.Model.Io := ⟨unhex, hex, showPAns, showOAns, showFAns, parseFrags, parseInt, hexNat⟩
+  let (m, mv) := match Decstr.Model.answerWith io req with
     | some ma => (" ".intercalate ma, match judge req ma with | some cs => showComplaints cs | none => "BAD")
     | none => ("-", "-")
   s!"{verdict} ## {m} ## {mv}"
